@@ -481,7 +481,8 @@ right; the machinery was corrected, nothing was added to the known findings, no 
 Hooks are behind `--cfg fe2o3_amqp_verif` (module `fe2o3_amqp::verif`: `SessionProbe`,
 `sender_credit` with `try_consume`, `split_transfer`, `sender_unsettled_tags` / `receiver_unsettled_tags`, two
 scheduling points, and since the fourth session `chunk_reader_reads` / `chunk_reader_read_exact` /
-`chunk_byte_iterator` / `chunk_reader` over `util::ByteReader`, whose constructor is guarded too); they add code only, are listed in `MANIFEST.hooks`, and with the guard off the
+`chunk_byte_iterator` / `chunk_reader` over `util::ByteReader`, whose constructor is guarded too, and
+`keep_buffer_till` over `IncompleteTransfer`, with a guarded constructor in `link/mod.rs`); they add code only, are listed in `MANIFEST.hooks`, and with the guard off the
 389-test baseline passes (`tools/baseline.sh`, run after every commit to `/repo`). Every repair is
 one unguarded commit whose message starts with `fix:` and touches only what the defect requires;
 they are listed in §8 with the property whose check found them.
@@ -515,6 +516,18 @@ they are listed in §8 with the property whose check found them.
   continuation frames may repeat the delivery-tag while the routing model's could not — continuation
   transfers that repeat the tag and leave the state out went to the link on their own (a1d507f, corpus
   C18/005; the table now keeps the post's tag, and so does the model).
+  A third defect of the fourth session came from the same habit of asking what the model leaves out: the
+  reassembly model has no `state` on its frames, and a continuation transfer that carries `received` makes
+  the receiver rewind the delivery (`keep_buffer_till_section_number_and_offset`). That loop cut every chunk
+  after the one with the position at the same index instead of dropping it (fixed, 298dd8c). It is modelled
+  now (`Amqp/KeepTill.lean`: `position`, `keepLoop`, its shape regenerated as `source_keep_shape`; theorems
+  `keep_is_take`, `keep_length`, `rewind_then_resend`), compared with the code through the hook
+  `keep_buffer_till` on random chunkings and rewind points, and exercised through a real Receiver (a delivery
+  rewound and sent again from the point). Observed and NOT judged: the counting of
+  `position_of_section_number_and_offset` looks at windows of three octets, so a point within the last two
+  octets received is never found and such a rewind is ignored; which (section, offset) names which octet is
+  the code's own convention (section numbers count headers seen, starting at 1 for the first), C10 does not
+  say, and the model and the scenarios follow the code there.
   Not modelled: what the resuming attach exchanges (the unsettled maps), and in `TxnRoute` whether the named
   transaction is live (that is `Amqp.Txn`, at the level of whole posts). Routing and reassembly are composed
   (`post_work_in_order`, `committed_post_is_the_post_as_written`: what the commit replays to a link is the
